@@ -1,2 +1,2 @@
--- stub: replaced by the real driver for model Validators (imports Pyrtma.Drv.Validators)
-def main : IO Unit := pure ()
+import Pyrtma.Drv.Validators
+def main : IO Unit := Pyrtma.Drv.Validators.main
